@@ -3,8 +3,8 @@ package main
 import (
 	"fmt"
 	"go/token"
-	"strings"
 	"go/types"
+	"strings"
 
 	"golang.org/x/tools/go/ssa"
 )
@@ -394,7 +394,7 @@ func controlledByLoadOf(b *ssa.BasicBlock, addr ssa.Value) bool {
 }
 
 func init() {
-	register(&Rule{ID: "C04.R7", Props: []string{"C04"}, Min: 12, Needs: NeedMain,
+	register(&Rule{ID: "C04.R7", Props: []string{"C04", "C03"}, Min: 12, Needs: NeedMain,
 		Doc: "an absent optional field leaves the target untouched: in every Reader.ReadX(data, tag, require) each store through data is either dominated by `have == true` of the tag search, or goes through a temporary handed to a narrower/wider reader that was seeded from *data before the delegation (so that `not found` writes the old value back), never from a zero temporary",
 		Run: func(r *R) {
 			sp := r.w.Pkg(codecPkg)
